@@ -198,7 +198,8 @@ class Item:
         self.hash = hashlib.sha256((sig + '{' + body + '}').encode()).hexdigest()[:16]
 
     def sig_norm(self):
-        return norm(strip_where(self.sig))
+        # line comments inside a parameter list are not part of the signature
+        return norm(strip_where(re.sub(r'//[^\n]*', '', self.sig)))
 
 
 def extract_fn(repo, file, within, name):
